@@ -198,6 +198,8 @@ func c03Facts(fs *Facts, s *c02Src) {
 	fs.Tri("lockedClosesWriterFirst", t, w)
 	t, w = c03CliAbortsWhenStopFails(s)
 	fs.Tri("cliAbortsWhenStopFails", t, w)
+	t, w = c03WrappersDelegate(s)
+	fs.Tri("wrappersDelegate", t, w)
 	t, w = c02ZeroTailIsEOF(s)
 	fs.Tri("zeroTailIsEOF", t, w)
 	c25ReaderAssumptions(fs, s)
@@ -258,6 +260,37 @@ func c03CliAbortsWhenStopFails(s *c02Src) (Tri, string) {
 			strings.HasSuffix(s.cli.Str(g.Body), "os.Exit(1) }") {
 			return Yes, where
 		}
+	}
+	return Unknown, where
+}
+
+// The other entries of the compactor are Compactor.Compact on one file, or nothing:
+//   CompactIfNeeded: ShouldCompact, then `return c.Compact()`;  ForceCompact: `return c.Compact()`;
+//   CompactDirectory: for every *.hyd of the directory NewCompactor(...).CompactIfNeeded(), no file operation of its own.
+func c03WrappersDelegate(s *c02Src) (Tri, string) {
+	if s.c == nil {
+		return Unknown, ""
+	}
+	cin, fc, cd := s.c.Func("Compactor", "CompactIfNeeded"), s.c.Func("Compactor", "ForceCompact"), s.c.Func("", "CompactDirectory")
+	if cin == nil || fc == nil || cd == nil {
+		return Unknown, c02Compact
+	}
+	where := c02Where(s.c, cd)
+	effect := func(fd *ast.FuncDecl) bool {
+		for _, bad := range []string{"os.Remove", "os.Rename", "os.WriteFile", "os.Create", "os.OpenFile", "os.Truncate", "NewFileWriter", "CompactFromIndex"} {
+			if s.c.Contains(fd, bad+"(") {
+				return true
+			}
+		}
+		return false
+	}
+	last := func(fd *ast.FuncDecl) string { return s.c.Str(fd.Body.List[len(fd.Body.List)-1]) }
+	okIf := len(s.c.Calls(cin, "c.Compact")) == 1 && last(cin) == "return c.Compact()" && len(s.c.Calls(cin, "c.ShouldCompact")) == 1 && !effect(cin)
+	okForce := len(s.c.Calls(fc, "c.Compact")) == 1 && last(fc) == "return c.Compact()" && !effect(fc)
+	okDir := len(s.c.Calls(cd, "NewCompactor")) == 1 && len(s.c.Calls(cd, "compactor.CompactIfNeeded")) == 1 && !effect(cd) &&
+		s.c.Contains(cd, `filepath.Ext(entry.Name()) != ".hyd"`)
+	if okIf && okForce && okDir {
+		return Yes, where
 	}
 	return Unknown, where
 }
